@@ -585,6 +585,111 @@ def nul_programs(rng):
     return out
 
 
+# one source form per parse-node kind of src/Parser/yyParser.yy (node arity in the comment: the emitter must never read a
+# slot the node does not have)
+EXPR_KINDS = [
+    ("null", "NULL"), ("nil", "NIL"),                                                       # node1
+    ("int0", "0"), ("int", "5"), ("bigint", "4294967297"), ("float", "1.5"), ("string", '"abc"'), ("emptystring", '""'),   # node2
+    ("local", "local"), ("level", "level"), ("game", "game"), ("group", "group"), ("parm", "parm"), ("self", "self"), ("owner", "owner"),
+    ("not", "!local.a"), ("notnull", "!NULL"),
+    ("neg", " -local.a"), ("negint", " -5"), ("compl", "~local.a"), ("target", "$x"), ("targetexpr", '$("x")'), ("targetparen", "$( local.a )"),   # node3
+    ("size", "local.a.size"), ("field", "local.a"), ("field2", "local.a.b"), ("targetfield", "$x.y"), ("stringfield", '"abc".f'),
+    ("intfield", "5.f"), ("nullfield", "NULL.f"), ("index", "local.a[1]"), ("index2", "local.a[1][2]"), ("nullindex", "NIL[1]"),
+    ("vecindex", "( 1 2 3 )[0]"), ("constarray", "1::2"), ("constarray3", "local.a::NULL::\"s\""), ("and", "( local.a && NIL )"),
+    ("or", "( NULL || 1 )"), ("cmdexpr", "( int 3 )"), ("cmdexpr0", "( isdefined NULL )"),
+    ("binop", "( 1 + 2 )"), ("cmp", "( local.a == NULL )"), ("method", "( self waitthread f )"), ("nullmethod", "( NULL waitthread f )"),   # node4
+    ("vector", "( 1 2 3 )"), ("nilvector", "( NIL NULL local )"), ("paren", "( NULL )"), ("parenfield", "( local.a )"),
+    ("makearray", "( makeArray\n1 NULL\nendArray )"), ("ident", "word"),
+]
+ASSIGN_FORMS = ["= 1", '= "text"', "+= local.i", "-= 1", "*= 2", "/= 2", "%= 2", "&= 1", "^= 1", "|= 1", "<<= 1", ">>= 1", "++", "--", "= NULL", "= NIL"]
+
+
+def rejected_statement_programs():
+    """every expression kind as the LEFT-HAND SIDE of every assignment form, at top level and nested in every statement
+    position, and every expression kind in every other position that demands a particular node shape"""
+    out = []
+
+    def add(name, src):
+        out.append((name, src.encode("latin1")))
+    ctxs = [
+        ("top", "main:\n%s\nend\n"),
+        ("if", "main:\nif (local.c) {\n%s\n}\nend\n"),
+        ("else", "main:\nif (local.c) {\n} else {\n%s\n}\nend\n"),
+        ("ifbare", "main:\nif (local.c) %s\nend\n"),
+        ("while", "main:\nwhile (local.c) {\n%s\nbreak\n}\nend\n"),
+        ("do", "main:\ndo {\n%s\n} while (local.c)\nend\n"),
+        ("forbody", "main:\nfor (local.i = 0; local.i < 2; local.i++) {\n%s\n}\nend\n"),
+        ("forinit", "main:\nfor (%s; local.i < 2; local.i++) {\n}\nend\n"),
+        ("forinc", "main:\nfor (local.i = 0; local.i < 2; %s) {\n}\nend\n"),
+        ("case", "main:\nswitch (local.c) {\ncase 1:\n%s\nbreak\n}\nend\n"),
+        ("try", "main:\ntry {\n%s\n} catch {\n}\nend\n"),
+        ("catch", "main:\ntry {\n} catch {\n%s\n}\nend\n"),
+        ("label", "main:\nthread f\nend\nf local.p:\n%s\nend\n"),
+        ("deep", "main:\nwhile (local.c) {\nswitch (local.c) {\ncase 1:\ntry {\n} catch {\nif (local.c) {\n%s\n}\n}\nbreak\n}\n}\nend\n"),
+    ]
+    for kn, e in EXPR_KINDS:
+        for fi, form in enumerate(ASSIGN_FORMS):
+            glue = "" if form in ("++", "--") else " "
+            stmt = e + glue + form
+            add("lhs-%s-%d-top" % (kn, fi), ctxs[0][1] % stmt)
+        for cn, tpl in ctxs[1:]:
+            for fi in (0, 2, 12):
+                form = ASSIGN_FORMS[fi]
+                stmt = e + ("" if form in ("++", "--") else " ") + form
+                add("lhs-%s-%d-%s" % (kn, fi, cn), tpl % stmt)
+        # the other positions
+        other = [
+            ("labelname", "main:\nend\n%s:\nend\n" % e),
+            ("pluslabel", "main:\nend\n+%s:\nend\n" % e.strip()),
+            ("minuslabel", "main:\nend\n-%s:\nend\n" % e.strip()),
+            ("labelparm", "main:\nend\nf %s:\nend\n" % e),
+            ("labelparm2", "main:\nend\nf local.p %s:\nend\n" % e),
+            ("case", "main:\nswitch (local.c) {\ncase %s:\nbreak\n}\nend\n" % e),
+            ("caseparm", "main:\nswitch (local.c) {\ncase 1 %s:\nbreak\n}\nend\n" % e),
+            ("straycase", "main:\ncase %s:\nend\n" % e),
+            ("endarg", "main:\nend %s\n" % e),
+            ("cmdname", "main:\n%s 1 2\nend\n" % e),
+            ("cmdarg", "main:\nprintln %s\nthread %s\nend\n" % (e, e)),
+            ("cmdargs7", "main:\nprintln " + " ".join([e] * 7) + "\nend\n"),
+            ("listener", "main:\n%s println 1\n%s thread f\nend\n" % (e, e)),
+            ("rhs", "main:\nlocal.r = %s\nlocal.r += %s\nend\n" % (e, e)),
+            ("switchon", "main:\nswitch %s {\ncase 1:\nbreak\n}\nswitch ( %s ) {\ncase 1:\nbreak\n}\nend\n" % (e, e)),
+            ("cond", "main:\nif %s {\n}\nwhile %s {\nbreak\n}\ndo {\n} while %s\nend\n" % (e, e, e)),
+            ("ifelse", "main:\nif ( %s ) local.a = 1 else local.a = 2\nend\n" % e),
+            ("forcond", "main:\nfor ( ; %s ; local.i++ ) {\nbreak\n}\nend\n" % e),
+            ("indexby", "main:\nlocal.r = local.a[ %s ]\nlocal.a[ %s ] = 1\nend\n" % (e, e)),
+            ("fieldof", "main:\nlocal.r = %s.f\n%s.f = 1\n%s.f++\nend\n" % (e, e, e)),
+            ("sizeof", "main:\nlocal.r = %s.size\nend\n" % e),
+            ("indexof", "main:\nlocal.r = %s[1]\n%s[1] = 2\n%s[1][2] += 3\nend\n" % (e, e, e)),
+            ("unary", "main:\nlocal.r = -%s\nlocal.r = !%s\nlocal.r = ~%s\nend\n" % (e.strip(), e.strip(), e.strip())),
+            ("binary", "main:\nlocal.r = %s + %s\nlocal.r = %s && %s\nlocal.r = %s == %s\nend\n" % (e, e, e, e, e, e)),
+            ("vectorof", "main:\nlocal.r = ( %s %s %s )\nend\n" % (e, e, e)),
+            ("targetof", "main:\nlocal.r = $( %s )\nend\n" % e),
+            ("constarrayof", "main:\nlocal.r = %s::%s\nend\n" % (e, e)),
+            ("makearrayof", "main:\nlocal.r = makeArray\n%s %s\n%s\nendArray\nend\n" % (e, e, e)),
+            ("callarg", "main:\nlocal.r = int %s\nlocal.r = self waitthread f %s\nlocal.r = waitthread %s\nend\n" % (e, e, e)),
+        ]
+        for on, src in other:
+            add("pos-%s-%s" % (on, kn), src)
+    for name, src in [
+        ("for-empty", "main:\nfor ( ; ; ) {\n}\nend\n"), ("for-noinit-nocond", "main:\nfor ( ; ; local.i++ ) {\nbreak\n}\nend\n"),
+        ("for-init-only", "main:\nfor ( local.i = 0 ; ; ) {\n}\nend\n"), ("for-cond-only", "main:\nfor ( ; local.i ; ) {\n}\nend\n"),
+        ("for-no-body", "main:\nfor ( local.i = 0 ; local.i < 2 ; local.i++ )\nend\n"), ("for-semicolon-body", "main:\nfor ( ; local.i ; local.i++ ) ;\nend\n"),
+        ("for-two-incs", "main:\nfor ( local.i = 0 ; local.i < 2 ; local.i++ local.j++ ) {\n}\nend\n"),
+        ("for-stmt-init", "main:\nfor ( println 1 ; local.i ; println 2 ) {\nbreak\n}\nend\n"),
+        ("for-break-init", "main:\nfor ( break ; local.i ; continue ) {\n}\nend\n"),
+        ("for-label-init", "main:\nfor ( x: ; local.i ; local.i++ ) {\n}\nend\n"),
+        ("for-block-init", "main:\nfor ( { local.i = 0 } ; local.i ; { local.i++ } ) {\n}\nend\n"),
+        ("empty-statements", "main:\n;\n{\n}\n{ ; }\nif (1) ;\nwhile (0) ;\nend\n"),
+        ("switch-empty", "main:\nswitch (1) {\n}\nend\n"), ("switch-only-break", "main:\nswitch (1) {\nbreak\n}\nend\n"),
+        ("try-empty-both", "main:\ntry {\n} catch {\n}\nend\n"), ("do-empty", "main:\ndo {\n} while (0)\nend\n"),
+        ("assign-chain", "main:\nlocal.a = local.b = 1\nend\n"), ("incr-rhs", "main:\nlocal.a = local.b++\nend\n"),
+        ("end-only", "end\n"), ("label-only", "main:\n"), ("two-labels-one-line", "a: b:\n"),
+    ]:
+        add("shape-" + name, src)
+    return out
+
+
 def late_reject_programs():
     """texts the MEASURING pass accepts and the EMITTING pass rejects: CompileException::DuplicateLabel is the only error
     that depends on the manager (ScriptCountManager::AddLabel/AddCaseLabel always succeed): the script object then holds
@@ -946,11 +1051,13 @@ def gen_cases(tier, seed, flags):
         texts.append(("noise-random", name, b))
     for name, b in late_reject_programs():
         texts.append(("rejected-by-the-emitting-pass", name, b))
+    for name, b in rejected_statement_programs():
+        texts.append(("rejected-statement", name, b))
     per = 12
     byo = {}
     for o, name, b in texts:
         byo.setdefault(o, []).append((name, b))
-    BOTH = ("targeted", "noise-fixed", "rejected-by-the-emitting-pass", "nul-byte")      # run in both developer modes
+    BOTH = ("targeted", "noise-fixed", "rejected-by-the-emitting-pass", "rejected-statement", "nul-byte")      # run in both developer modes
     nth = 0
     for o, lst in byo.items():
         for i in range(0, len(lst), per):
@@ -1140,7 +1247,7 @@ def check(res, tier, seed):
         "C01: (A) every history of length 3 (thorough 4) over 26 table operations on 2 names (stream/file variant, recompile, run, exec, set file; sources accepted/parse error/compile error) "
         "+ seeded random walks over 4 names; (B) every loop skeleton of <= 4 (5) symbols over {break, continue, while, do, switch, try/catch}, the 98..102 boundary of both jump tables in 9 shapes, "
         "depth 0..8 inside switch, seeded random skeletons; (C) arbitrary texts: targeted programs, fixed noise list, the ring-position family (11 peephole-sensitive shapes after 0..210 fillers x 2 parities, plain / in a switch body / in a catch block: every offset of the 100-slot prev_opcodes ring; required outcome ok), the NUL-byte family (a 0 byte inserted at / replacing every position of 9 seed texts, runs of 2 and 9 NULs, other control/high bytes at sampled positions), grammar-directed programs (depth <= 12, thorough also <= 40), token mutants "
-        "(delete/duplicate/swap/replace/stray keyword/unbalance/stray punctuation/split), thorough: every single-token deletion of 200 programs, random byte noise; the family rejected-by-the-emitting-pass (duplicate labels / case values: the only error raised by the program manager and not by the counting manager); developer mode on and off (alternating per case; targeted, fixed noise, NUL-byte, late-reject and corpus texts in both); 12 texts per engine, after each: "
+        "(delete/duplicate/swap/replace/stray keyword/unbalance/stray punctuation/split), thorough: every single-token deletion of 200 programs, random byte noise; the family rejected-statement (50 expression kinds - one per parse-node constructor and arity of yyParser.yy - as the left-hand side of 16 assignment forms at top level and of 3 forms in 13 nested positions, and in 29 other positions: label name/parameters, case, end argument, command name/arguments, listener, conditions, for header, index, field, unary/binary/vector/array operands), the family rejected-by-the-emitting-pass (duplicate labels / case values: the only error raised by the program manager and not by the counting manager); developer mode on and off (alternating per case; targeted, fixed noise, NUL-byte, late-reject and corpus texts in both); 12 texts per engine, after each: "
         "re-request, sentinel run, fresh compile+run, state of the text's script (accepted texts are not executed here), recompile=true of the same name from a valid source + run; at the end of every engine Reset(), sentinel absent, compiled and run again, and the context is destroyed inside the watched region.  non-trivial = an arbitrary text whose compilation finished in an allowed class with all six probes agreeing with the model, "
         "or a history/skeleton of >= 3 operations/symbols. ")
     # ---- translator
